@@ -187,6 +187,10 @@ def run(tier, seed):
         for n_ in INDENTS:
             for pre_ in ([], [ix["plain text"]]):
                 edocs += [("seq", pre_ + [ix[o_], ix[""], ix[n_]]), ("seq", pre_ + [ix[o_], ix[""], ix[n_], ix["plain text"]]), ("seq", pre_ + [ix[o_], ix[n_]]), ("seqnf", pre_ + [ix[o_], ix[""], ix[n_]])]
+    # a container whose first line is the header row of a table (the table is then the first block of the item / quote / definition / note)
+    for pre_ in ("* ", "*  ", "1. ", "> ", ": ", "[^fn]: ", "+   "):
+        for tb_ in ("|a|\n|-|\n|c|\n", "| a | b |\n|---|:-:|\n| c | d |\n\nplain text\n", "a | b\n--|--\nc | d\n"):
+            edocs.append(("raw", ((("term\n" if pre_ == ": " else "") + pre_ + tb_) + ("\nuse[^fn]\n" if pre_.startswith("[^") else "")).encode()))
     # metadata that re-configures the conversion (format switch, header levels, languages, inserted headers/footers)
     CONF = ["latex mode: beamer", "latex mode: memoir", "latexmode: article", "base header level: 3", "html header level: 4", "latex header level: -1", "odf header level: 2", "language: de", "quotes language: fr",
             "css: x.css", "html header: <script></script>", "html footer: <!-- f -->", "latex config: article", "latex input: pre", "latex footer: post", "bibtex: refs", "biblio style: plain", "xhtml header: <x/>",
